@@ -280,7 +280,7 @@ class PrimitiveField(_BaseField):
     default: str | int | float | bool | None
 
     def is_nullable(self, version: int) -> bool:
-        # Primitive types are never optional
+        # Types that have no null representation on the wire are never optional.
         if self.type in {
             Primitive.int8,
             Primitive.int16,
@@ -290,6 +290,10 @@ class PrimitiveField(_BaseField):
             Primitive.uint32,
             Primitive.uint64,
             Primitive.float64,
+            Primitive.bool_,
+            Primitive.error_code,
+            Primitive.timedelta_i32,
+            Primitive.timedelta_i64,
         }:
             return False
 
